@@ -94,6 +94,8 @@ func runPacketID(raw json.RawMessage) interface{} {
 		pidScript(&sc, res)
 	case "churn":
 		pidChurn(&sc, res)
+	case "resup":
+		pidResup(&sc, res)
 	default:
 		res.Infra = "unknown kind " + sc.Kind
 	}
@@ -483,6 +485,69 @@ func pidScript(sc *pidScenario, res *pidResult) {
 		res.Reqs = append(res.Reqs, row)
 		res.After = append(res.After, after)
 	}
+}
+
+// pidResup: Hold requests with library-chosen identifiers stay outstanding (their SUBACKs are withheld); then a
+// Publish whose Message.ID the caller preset to an identifier N below them (what the retransmission of an older
+// message carries); then Per further requests, which must not meet the identifiers still outstanding.
+func pidResup(sc *pidScenario, res *pidResult) {
+	plan := netsim.Plan{}
+	for k := 1; k <= sc.Hold; k++ {
+		plan.Writes = append(plan.Writes, netsim.FaultRule{P: "SUBSCRIBE", N: k, O: "dropAck"})
+	}
+	w := netsim.NewWorld(plan)
+	obs := &pidObserver{}
+	w.OnClientPacket = obs.hook
+	ctx, cancel := context.WithTimeout(context.Background(), 20*time.Second)
+	defer cancel()
+	cli, err := pidConnect(ctx, w, sc.start())
+	if err != nil {
+		res.Infra = "connect: " + err.Error()
+		return
+	}
+	var wg sync.WaitGroup
+	for k := 1; k <= sc.Hold; k++ {
+		k := k
+		wg.Add(1)
+		go func() {
+			defer wg.Done()
+			cli.Subscribe(ctx, mqtt.Subscription{Topic: fmt.Sprintf("held/%d", k), QoS: mqtt.QoS1})
+		}()
+		for t0 := time.Now(); obs.requests() < k; {
+			if time.Since(t0) > 5*time.Second {
+				res.Infra = "held SUBSCRIBE not seen"
+				return
+			}
+			time.Sleep(100 * time.Microsecond)
+		}
+	}
+	sup := uint16(sc.start()) - uint16(sc.N)
+	if sup == 0 {
+		sup = 65535
+	}
+	m := &mqtt.Message{Topic: "p", QoS: mqtt.QoS(sc.AckEvery), Payload: netsim.PayloadOf(1), ID: sup}
+	if err := cli.Publish(ctx, m); err != nil {
+		res.Infra = "publish with preset id failed: " + err.Error()
+		return
+	}
+	for k := 0; k < sc.Per; k++ {
+		if k%2 == 0 {
+			_, err = cli.Subscribe(ctx, mqtt.Subscription{Topic: fmt.Sprintf("later/%d", k), QoS: mqtt.QoS1})
+		} else {
+			err = cli.Publish(ctx, &mqtt.Message{Topic: "q", QoS: mqtt.QoS1, Payload: netsim.PayloadOf(2 + k)})
+		}
+		if err != nil {
+			res.Infra = "later request failed: " + err.Error()
+			return
+		}
+	}
+	obs.mu.Lock()
+	res.Ev = append([]int{}, obs.ev...)
+	res.MaxOut = obs.max
+	obs.mu.Unlock()
+	cancel()
+	cli.Close()
+	wg.Wait()
 }
 
 func pidChurn(sc *pidScenario, res *pidResult) {
